@@ -97,6 +97,18 @@ def probe(seed):
                 except deal.PostContractError:
                     via = "post"; break
             if via != rt: bad.append([lo, hi, x, rt, via])
+    # a record reports what was declared: the exception classes of raises (in order), the markers of has, the event of reason
+    for decl in [(LookupError, KeyError), (OSError, FileNotFoundError, ValueError), (KeyError,), (ArithmeticError, ZeroDivisionError), ()]:
+        @deal.raises(*decl)
+        @deal.has("stdout", "custom")
+        @deal.reason(ValueError, lambda x: True)
+        def h(x): return x
+        recs = list(di.get_contracts(h))
+        ra = [r for r in recs if isinstance(r, di.Raises)]; ha = [r for r in recs if isinstance(r, di.Has)]; re_ = [r for r in recs if isinstance(r, di.Reason)]
+        if len(ra) != 1 or tuple(ra[0].exceptions) != tuple(decl):
+            bad.append(["raises record", [c.__name__ for c in decl], [c.__name__ for c in ra[0].exceptions] if ra else None])
+        if len(ha) != 1 or set(ha[0].markers) != {"stdout", "custom"}: bad.append(["has record", sorted(ha[0].markers) if ha else None])
+        if len(re_) != 1 or re_[0].event is not ValueError: bad.append(["reason record", repr(getattr(re_[0], "event", None)) if re_ else None])
     # pre-initialising inherited contracts changes no later outcome (the overriding method has other defaults / an extra parameter)
     for _ in range(20):
         d1, d2 = rnd.randint(5, 15), rnd.randint(50, 150)
